@@ -3,7 +3,7 @@
    InMemoryMetaData.do_entity_descriptor 470-519, parse 521-546, service
    548-585, attribute_requirement 587-607 (+ module function 117-128),
    signed / parse_and_check_signature 625-651, MetaData.certs 388-428 (with
-   repack_cert 149-155), MetadataStore.load 860-914 (inline / local / remote),
+   repack_cert 149-155; as repaired by proposed_fix/C03-1), MetadataStore.load 860-914 (inline / local / remote),
    service 976-994, attribute_requirement 1121-1124, keys, __getitem__,
    with_descriptor, entity_categories, entity_attributes 1170-1223; and the
    endpoint / key-descriptor part of metadata.entity_descriptor (do_endpoints
@@ -340,45 +340,79 @@ Definition use_ok (use : str) (k : keydesc) : bool :=
 
 Definition add_new (res : list str) (c : str) : list str := if mem_str c res then res else res ++ [c].
 
-(* extract_certs: key["key_info"]["x509_data"] raises KeyError when a matching
-   key descriptor has no X509Data *)
-Fixpoint extract_loop (use : str) (ks : list keydesc) (res : list str) : result (list str) :=
+(* extract_certs (mdstore.py 396-414, after the repair proposed_fix/C03-1: the loops read
+   key[key_info].get(x509_data, [])): a matching key descriptor WITHOUT X509Data (KeyName / KeyValue
+   only, kd_certs = []) contributes no certificate; extract_certs itself never raises *)
+Fixpoint extract_loop (use : str) (ks : list keydesc) (res : list str) : list str :=
   match ks with
-  | [] => Ok res
+  | [] => res
   | k :: rest =>
-      if use_ok use k then
-        if is_nil (kd_certs k) then Err KeyError
-        else extract_loop use rest (fold_left add_new (map repack_cert (kd_certs k)) res)
+      if use_ok use k then extract_loop use rest (fold_left add_new (map repack_cert (kd_certs k)) res)
       else extract_loop use rest res
   end.
-Definition extract_certs (use : str) (rs : list role) : result (list str) :=
+Definition extract_certs (use : str) (rs : list role) : list str :=
   extract_loop use (flat_map r_keys rs) [].
 
 Definition ANY_ROLES : list str :=
   [s2l "spsso"; s2l "idpsso"; s2l "role"; s2l "authn_authority"; s2l "attribute_authority"; s2l "pdp"].
 Definition descr_key (d : str) : str := d ++ s2l "_descriptor".
 
-Fixpoint certs_any (use : str) (e : entity) (ds : list str) : result (list str) :=
+(* descriptor = any: a missing descriptor type is skipped (KeyError caught) *)
+Fixpoint certs_any (use : str) (e : entity) (ds : list str) : list str :=
   match ds with
-  | [] => Ok []
+  | [] => []
   | d :: rest =>
       match roles_of e (descr_key d) with
       | [] => certs_any use e rest
-      | rs => match extract_certs use rs with
-              | Err x => Err x
-              | Ok l => match certs_any use e rest with Err x => Err x | Ok l' => Ok (l ++ l') end
-              end
+      | rs => extract_certs use rs ++ certs_any use e rest
       end
   end.
 
+(* MetadataStore.certs: KeyError = unknown entity, or (named descriptor) no descriptor of that type *)
 Definition store_certs (st : store) (eid descriptor use : str) : result (list str) :=
   match store_get st eid with
   | None => Err KeyError
   | Some e =>
-      if str_eqb descriptor (s2l "any") then certs_any use e ANY_ROLES
+      if str_eqb descriptor (s2l "any") then Ok (certs_any use e ANY_ROLES)
       else match roles_of e (descr_key descriptor) with
            | [] => Err KeyError
-           | rs => extract_certs use rs
+           | rs => Ok (extract_certs use rs)
+           end
+  end.
+
+(* the same BEFORE that repair: key[key_info][x509_data] raised KeyError when a matching key
+   descriptor had no X509Data - for the whole entity, whatever the other descriptors declare *)
+Fixpoint extract_loop_before_fix (use : str) (ks : list keydesc) (res : list str) : result (list str) :=
+  match ks with
+  | [] => Ok res
+  | k :: rest =>
+      if use_ok use k then
+        if is_nil (kd_certs k) then Err KeyError
+        else extract_loop_before_fix use rest (fold_left add_new (map repack_cert (kd_certs k)) res)
+      else extract_loop_before_fix use rest res
+  end.
+Definition extract_certs_before_fix (use : str) (rs : list role) : result (list str) :=
+  extract_loop_before_fix use (flat_map r_keys rs) [].
+Fixpoint certs_any_before_fix (use : str) (e : entity) (ds : list str) : result (list str) :=
+  match ds with
+  | [] => Ok []
+  | d :: rest =>
+      match roles_of e (descr_key d) with
+      | [] => certs_any_before_fix use e rest
+      | rs => match extract_certs_before_fix use rs with
+              | Err x => Err x
+              | Ok l => match certs_any_before_fix use e rest with Err x => Err x | Ok l' => Ok (l ++ l') end
+              end
+      end
+  end.
+Definition store_certs_before_fix (st : store) (eid descriptor use : str) : result (list str) :=
+  match store_get st eid with
+  | None => Err KeyError
+  | Some e =>
+      if str_eqb descriptor (s2l "any") then certs_any_before_fix use e ANY_ROLES
+      else match roles_of e (descr_key descriptor) with
+           | [] => Err KeyError
+           | rs => extract_certs_before_fix use rs
            end
   end.
 
